@@ -291,8 +291,115 @@ def overlap_sets(rng: random.Random, tier: str):
                 yield vt, list(xts)
 
 
+def object_stage_payload(prefix: str = "C04") -> Optional[dict]:
+    """The whole-object check of every record-shaped validator (and of the n-tuple validator) is handed the object
+    built from the children's *payloads* - the very object the call then returns when the check passes - never the
+    raw input; and what comes back is accepted again, unchanged."""
+    import dataclasses as _dc
+    from decimal import Decimal
+    from typing import NamedTuple, TypedDict
+    from koda_validate import (DataclassValidator, DecimalValidator, DictValidatorAny, NamedTupleValidator, NTupleValidator,
+                               RecordValidator, StringValidator, TypedDictValidator, Valid, strip)
+
+    # (functional forms: this module defers annotations, classes written with `class` would carry strings)
+    TD = TypedDict("TD", {"low": Decimal, "name": str})
+    DC = _dc.make_dataclass("DC", [("low", Decimal), ("name", str)])
+    NT = NamedTuple("NT", [("low", Decimal), ("name", str)])
+    fields = {"low": DecimalValidator(), "name": StringValidator(preprocessors=[strip])}
+    raw = {"low": "10", "name": " bob "}
+    for is_async in (False, True):
+        seen: list = []
+
+        def chk(obj):
+            seen.append(obj)
+            return None
+
+        async def achk(obj):
+            seen.append(obj)
+            return None
+        kw = {"validate_object_async": achk} if is_async else {"validate_object": chk}
+        builds = [("TypedDictValidator", lambda: TypedDictValidator(TD, overrides=dict(fields), **kw), raw, {"low": Decimal(10), "name": "bob"}),
+                  ("DataclassValidator", lambda: DataclassValidator(DC, overrides=dict(fields), **kw), raw, DC(Decimal(10), "bob")),
+                  ("NamedTupleValidator", lambda: NamedTupleValidator(NT, overrides=dict(fields), **kw), raw, NT(Decimal(10), "bob")),
+                  ("DictValidatorAny", lambda: DictValidatorAny(dict(fields), **kw), raw, {"low": Decimal(10), "name": "bob"}),
+                  ("RecordValidator", lambda: RecordValidator(into=lambda low, name: (low, name), keys=(("low", fields["low"]), ("name", fields["name"])), **kw),
+                   raw, (Decimal(10), "bob"))]
+        if not is_async:
+            builds.append(("NTupleValidator", lambda: NTupleValidator.untyped(fields=(fields["low"], fields["name"]), validate_object=chk),
+                           ["10", " bob "], (Decimal(10), "bob")))
+        for name, mk, x, want in builds:
+            del seen[:]
+            try:
+                v = mk()
+                r = drive(v.validate_async(x)) if is_async else v(x)
+            except Exception as e:  # noqa
+                return {"signature": f"{prefix}:object-stage-payload", "what": f"{name} ({'async' if is_async else 'sync'}) with a whole-object check raised {e!r}"}
+            mode = "async" if is_async else "sync"
+            if type(r) is not Valid or type(r.val) is not type(want) or r.val != want:
+                return {"signature": f"{prefix}:object-stage-payload", "what": f"{name} ({mode}) on {x!r}: expected Valid({want!r}), got {r!r}"}
+            if len(seen) != 1 or type(seen[0]) is not type(want) or seen[0] != want:
+                return {"signature": f"{prefix}:object-stage-payload",
+                        "what": f"{name} ({mode}) on {x!r}: its whole-object check was handed {seen!r}; the object built from the children's payloads is {want!r}"}
+            if seen[0] is not r.val:
+                return {"signature": f"{prefix}:object-stage-payload",
+                        "what": f"{name} ({mode}): the object the check approved ({seen[0]!r}) is not the object returned ({r.val!r})"}
+            if name in ("TypedDictValidator", "DataclassValidator", "NamedTupleValidator", "DictValidatorAny"):
+                r2 = drive(v.validate_async(r.val)) if is_async else v(r.val)
+                if type(r2) is not Valid or type(r2.val) is not type(want) or r2.val != want:
+                    return {"signature": f"{prefix}:object-stage-payload", "what": f"{name} ({mode}): its own payload {r.val!r} is answered with {r2!r} when validated again"}
+    return None
+
+
+def kw_only_dataclasses() -> Optional[dict]:
+    """Requiredness comes from the class: a field with a default may be absent wherever it is declared - keyword-only
+    fields (one, all, mixed with positional defaults, inherited) included; a field without one may not."""
+    import dataclasses as _dc
+    from koda_validate import DataclassValidator, Invalid, Valid
+    from koda_validate.errors import KeyErrs, MissingKeyErr
+    F = _dc.field
+    specs = [
+        ("all kw_only", dict(kw_only=True), [("a", int), ("b", int, F(default=5)), ("c", int)]),
+        ("one kw_only default before a required field", {}, [("a", int), ("b", int, F(default=5, kw_only=True)), ("c", int)]),
+        ("positional default and kw_only required", {}, [("a", int), ("b", int, F(default=5)), ("c", int, F(kw_only=True))]),
+        ("kw_only defaults only", dict(kw_only=True), [("a", int, F(default=1)), ("b", int, F(default=2))]),
+        ("default_factory kw_only", {}, [("a", int), ("b", list, F(default_factory=list, kw_only=True))]),
+    ]
+    for label, opts, flds in specs:
+        cls = _dc.make_dataclass("KW", flds, **opts)
+        v = DataclassValidator(cls)
+        names = [f[0] for f in flds]
+        optional = {f[0] for f in flds if len(f) == 3}
+        sample = {n: ([] if any(f[0] == n and f[1] is list for f in flds) else 7) for n in names}
+        for missing in [set()] + [{n} for n in names] + [set(optional)]:
+            x = {k: val for k, val in sample.items() if k not in missing}
+            for mode in ("sync", "async"):
+                r = v(x) if mode == "sync" else drive(v.validate_async(x))
+                lacking = sorted(missing - optional)
+                if not lacking:
+                    try:
+                        want = cls(**x)
+                    except Exception:  # noqa
+                        continue
+                    if type(r) is not Valid or r.val != want:
+                        return {"signature": "C04:kw-only-requiredness",
+                                "what": f"dataclass ({label}) given {x!r} ({mode}): only defaulted fields are absent, expected Valid({want!r}), got {r!r}"}
+                else:
+                    ok = type(r) is Invalid and type(r.err_type) is KeyErrs and sorted(r.err_type.keys) == lacking and \
+                        all(type(e.err_type) is MissingKeyErr for e in r.err_type.keys.values())
+                    if not ok:
+                        return {"signature": "C04:kw-only-requiredness",
+                                "what": f"dataclass ({label}) given {x!r} ({mode}): the required field(s) {lacking} are absent, expected exactly their missing-key errors, got {r!r}"}
+    return None
+
+
 def run(tier: str, rng: random.Random, proof_ok: bool) -> dict:
     rep = run_families("C04", cases(tier, rng), rng, oracle, nontrivial)
+    kwo = kw_only_dataclasses()
+    if kwo:
+        rep["violations"].append({"kind": "oracle", **kwo, "replay_case": {"kw_only_dataclasses": True}})
+    osp = object_stage_payload("C04")
+    if osp:
+        rep["violations"].append({"kind": "oracle", **osp, "replay_case": {"object_stage_payload": True}})
     from .C13 import check_interleavings
     from ..lang import to_json
     n_sets = n_sched = 0
@@ -319,6 +426,14 @@ def replay(path: str) -> int:
     from ..lang import from_json
     j = json.load(open(path))
     rc = j.get("replay_case") or {}
+    if rc.get("kw_only_dataclasses"):
+        r = kw_only_dataclasses()
+        print("property violated: " + r["what"] if r else "property holds for dataclasses with keyword-only fields")
+        return 1 if r else 0
+    if rc.get("object_stage_payload"):
+        r = object_stage_payload("C04")
+        print("property violated: " + r["what"] if r else "property holds: whole-object checks see the payload")
+        return 1 if r else 0
     if rc.get("interleaving"):
         from .C13 import check_interleavings
         r, _ = check_interleavings(from_json(rc["v"]), [], [from_json(x) for x in rc["inputs"]], 100000)
